@@ -197,6 +197,16 @@ def run_scenario(sc):
                 ctl["flushed"] = {"t": loop.time() - t0, "exc": exc,
                                   "unresolved_after": sum(1 for s in before if not s[4].done())}
 
+        user_cancelled = set()
+
+        async def canceller(fut, k):
+            # the application gives up on a returned future (wait_for timeout / cancel) after k loop iterations
+            for _ in range(k):
+                await asyncio.sleep(0)
+            if k >= 50:
+                await asyncio.sleep(k / 10000.0)
+            fut.cancel()
+
         async def task(ti, items):
             for it in items:
                 if it.get("sleep"):
@@ -217,6 +227,9 @@ def run_scenario(sc):
                     for k, rid in enumerate(it["send_batch"]):
                         net.ev("c_accept", tp=["t", tp0], rid=rid, newb=k == 0, bid=-1)
                         sends.append((rid, ti, tp0, None, bfut, b"k%d" % rid, b"r%d|" % rid, [], k))
+                    if it.get("cancel_after") is not None:
+                        user_cancelled.update(it["send_batch"])
+                        asyncio.ensure_future(canceller(bfut, it["cancel_after"]))
                     for _ in range(it.get("yields", 0)):
                         await asyncio.sleep(0)
                     if it.get("late") is not None:
@@ -225,6 +238,8 @@ def run_scenario(sc):
                         if md is not None:
                             net.ev("c_accept", tp=["t", tp0], rid=it["late"], newb=False, bid=-1)
                             sends.append((it["late"], ti, tp0, None, bfut, None, None, [], -1))
+                            if it.get("cancel_after") is not None:
+                                user_cancelled.add(it["late"])
                     await maybe_ctl()
                     continue
                 rid = it["rid"]
@@ -239,6 +254,10 @@ def run_scenario(sc):
                         coro = asyncio.wait_for(coro, timeout=600.0)
                     fut = await coro
                     sends.append((rid, ti, it["p"], it.get("ts"), fut, key, val, hdrs))
+                    if it.get("cancel_after") is not None:
+                        # "Cancelling the returned future will not stop event from being sent" (send() docstring)
+                        user_cancelled.add(rid)
+                        asyncio.ensure_future(canceller(fut, it["cancel_after"]))
                 except Exception as e:  # noqa: BLE001
                     sends.append((rid, ti, it["p"], it.get("ts"), "EXC:" + type(e).__name__, key, val, hdrs))
                 await maybe_ctl()
@@ -324,6 +343,8 @@ def run_scenario(sc):
             r = {"rid": rid, "task": ti, "p": part, "ts": ts}
             if len(ent) > 8:
                 r["batch_index"] = ent[8]      # send_batch(): the future is the batch's (names its first record)
+            if rid in user_cancelled:
+                r["user_cancelled"] = True
             if isinstance(fut, str):
                 r["send_exc"] = fut[4:]
             elif not fut.done():
